@@ -26,7 +26,9 @@ Violations(line) ==
       o  == line.obs
       R(name, bad) == IF name \in Rules /\ bad THEN {name} ELSE {}
   IN
-  IF o.panic THEN {"no-panic"} ELSE
+  IF o.panic THEN {"no-panic"}
+  ELSE IF o.verdict = "n/a" THEN {}      \* the driver could not bring the case about (see drv_identity.go: unvalidated identity lists)
+  ELSE
      R("verdict", o.verdict # e.verdict)
      \* C12 consistency: no error <=> outcome without error; failure after selection <=> outcome with error
   \cup R("outcome", o.out # e.out \/ (o.out = "present" /\ o.outErr # e.outErr))
